@@ -462,10 +462,32 @@ def rule_map(ctx, rep):
         if me:
             p = op_place(me[0].args[1])
             d = b.single_def(p[0]) if p else None
+            def builds_cycle_problem(body, depth=2, seen=None):
+                """Problem::RecursiveCycle is constructed in the body, or in a helper of the analyzer it calls (`self.cycle_diagnostic(..)`)"""
+                seen = seen if seen is not None else set()
+                if body.id in seen:
+                    return False
+                seen.add(body.id)
+                for _, _, s in body.all_stmts():
+                    if s[0] == "=" and s[2][0] == "agg" and isinstance(s[2][1], dict) and s[2][1].get("adt") == "ironplc_problems::Problem" and s[2][1].get("variant") == "RecursiveCycle":
+                        return True
+                if depth > 0:
+                    for c2 in body.calls():
+                        if (c2.callee or "").startswith("ironplc_analyzer::"):
+                            for hb in ctx.prog.get(c2.callee):
+                                if builds_cycle_problem(hb, depth - 1, seen):
+                                    return True
+                return False
             if d and d[0] == "stmt" and d[3][0] == "agg" and d[3][1].get("k") == "closure":
                 for cb in ctx.prog.get(norm(d[3][1]["def"])):
-                    for _, _, s in cb.all_stmts():
-                        if s[0] == "=" and s[2][0] == "agg" and s[2][1].get("adt") == "ironplc_problems::Problem" and s[2][1]["variant"] == "RecursiveCycle":
+                    if builds_cycle_problem(cb):
+                        ok = True
+            elif p is not None:
+                # a named function handed to map_err
+                c0 = b.const_of(me[0].args[1]) if hasattr(b, "const_of") else None
+                if c0 is not None and len(c0) > 3 and isinstance(c0[3], dict) and "rfn" in c0[3]:
+                    for cb in ctx.prog.get(norm(c0[3]["rfn"])):
+                        if builds_cycle_problem(cb):
                             ok = True
         br = [c for c in b.calls() if "Try>::branch" in (c.callee or "") and me and op_place(c.args[0]) and b.root(op_place(c.args[0]))[0] == me[0].dest[0]]
         if ok and br:
